@@ -324,11 +324,11 @@ func c07Variants(w *World, wc *wireCtx, r *Report) {
 		}
 		var usesKey, usesVal bool
 		for _, st := range wc.m.sitesOf(fn) {
-			d, _ := wc.m.siteDeps(st, nil)
-			if d&sPK != 0 {
+			pf := pairFieldsEmitted(st.val)
+			if pf["Key"] {
 				usesKey = true
 			}
-			if d&sPV != 0 {
+			if pf["Value"] {
 				usesVal = true
 			}
 		}
